@@ -475,6 +475,8 @@ def run(ctx):
     ctx.rule("R-6.2", "restore provenance of the scheduler stream (cross-reference to C07)", floor=1)
     ctx.rule("R-6.3", "no nondeterministic source reaches restart.toml or the data file (taint analysis)", floor=10)
     ctx.rule("R-6.4", "per-run state is per instance", floor=3)
+    ctx.rule("R-6.10", "what load_path reads back has the roles it was written with (columns of order/energy/traj files, shared with C14 R-14.2)", floor=3)
+    ctx.rule("R-6.9", "a restart does not rewrite persisted settings: stores outside [current] on the restart path of setup_config only fill in missing defaults", floor=4)
     ctx.rule("R-6.8", "the weight function is called with the same configuration keys when a path is accepted (run_md) and when it is loaded at a (re)start (load_paths)", floor=4)
     ctx.rule("R-6.7", "every configuration key is accessed under one section path across the package (what the run used is what the restart uses)", floor=20)
     ctx.rule("R-6.5", "the restart file is written from the final state of the step: nothing it serialises is modified after write_toml in treat_output", floor=1)
@@ -485,12 +487,19 @@ def run(ctx):
     ctx.attempt(r66, ctx)
     from .shared import commit_is_final
     ctx.attempt(commit_is_final, ctx, "R-6.5")
-    from .shared import config_section_agreement, callsite_config_agreement
+    from . import c14
+    from .shared import RuleProxy
+    ctx.attempt(c14.r142, RuleProxy(ctx, "R-6.10", " (a path read back at a restart differs from the path the interrupted run held in memory)"))
+    from .shared import config_section_agreement, callsite_config_agreement, restart_preserves_settings
+    ctx.attempt(restart_preserves_settings, ctx, "R-6.9", " (restart equivalence)")
     ctx.attempt(callsite_config_agreement, ctx, "R-6.8", "calc_cv_vector", ["interfaces", "moves", "lambda_minus_one", "cap"], " (restart equivalence: a path loaded from disk is weighted like the same path when it was accepted)")
     ctx.attempt(config_section_agreement, ctx, "R-6.7", " - a path loaded at a restart is then weighted / treated with another setting than the same path during the run")
 
 
 VARIANTS = [
+    B("c06-load-energies-swapped", PATH, '                energy["data"]["ekin"], energy["data"]["vpot"]', '                energy["data"]["vpot"], energy["data"]["ekin"]', "R-6.10", control=True, why="seeded C06_d"),
+    B("c06-restart-resets-data-file", SETUP, '        curr["restarted_from"] = config["current"]["cstep"]\n', '        curr["restarted_from"] = config["current"]["cstep"]\n        config["output"]["data_file"] = os.path.join(config["output"]["data_dir"], "infretis_data.txt")\n', "R-6.9", control=True, why="seeded C04_d"),
+    B("c06-restart-reseeds", SETUP, '    if "seed" not in config["simulation"].keys():\n        config["simulation"]["seed"] = 0', '    config["simulation"]["seed"] = 0', "R-6.9"),
     B("c06-load-paths-without-cap", REPEX, "                cap=self.cap,\n            )\n            self.add_traj(\n                ens=i,", "            )\n            self.add_traj(\n                ens=i,", "R-6.8", control=True),
     B("c06-run-md-wrong-moves", TIS, '                md_items["mc_moves"],\n                picked[ens_num]["ens"]["tis_set"]["lambda_minus_one"],', '                md_items["interfaces"],\n                picked[ens_num]["ens"]["tis_set"]["lambda_minus_one"],', "R-6.8"),
     K("c06-keep-load-paths-direct-keys", REPEX, "                cap=self.cap,\n            )\n            self.add_traj(\n                ens=i,", "                cap=self.config[\"simulation\"][\"tis_set\"].get(\"interface_cap\"),\n            )\n            self.add_traj(\n                ens=i,"),
